@@ -69,6 +69,7 @@ type LabCase struct {
 	Degraded    []string // rewrites applied by degradeDefs
 	Unsupported []string // constructs the format cannot express (then nothing was generated)
 	Notes       []string // rendered, but known to be dropped/altered by cog's front-end
+	Style       []string // spelling variants the renderer used (JSON Schema type arrays)
 
 	SchemaText    string // what cog read
 	RefSchemaText string // what the reference validator reads (differs only for OpenAPI mappings)
@@ -225,7 +226,7 @@ func (l *Lab) AddCaseVeneers(defs *Defs, format string, flags GoFlags, builders,
 	d, notes := degradeDefs(defs, format, l.Opts.Degrade)
 	c.Degraded = notes
 	ro := renderDefs(d, format, c.ID)
-	c.Unsupported, c.Notes = ro.Unsupported, ro.Notes
+	c.Unsupported, c.Notes, c.Style = ro.Unsupported, ro.Notes, ro.Style
 	if ro.Text == "" {
 		return c
 	}
